@@ -711,13 +711,19 @@ class Taylor3D(object):
             else:
                 # a little tricky: we need to *append* to an existing term
                 clmax0 = cmatch[1]
+                # in-place += cannot cast complex into a real array: promote the target first if needed
+                dtype = np.result_type(cpow, cmatch[2])
                 if blmax > clmax0:
                     # need to replace cmatch with a new tuple
+                    cpow = cpow.astype(dtype, copy=False)
                     cpow[:cls.powlrange[clmax0]] += cmatch[2]
                     c[coeffindex] = (bn, blmax, cpow)
                 else:
                     # can just append in place: need to be careful, since we have a tuple
                     coeff = cmatch[2]
+                    if coeff.dtype != dtype:
+                        coeff = coeff.astype(dtype)
+                        c[coeffindex] = (cmatch[0], clmax0, coeff)
                     coeff[:cls.powlrange[blmax]] += cpow
         c.sort(key=cls.__sortkey)
         return c
@@ -1055,7 +1061,12 @@ class Taylor3D(object):
                 if coeffindex < len(ca) - 1:
                     if ca[coeffindex + 1][0] == n:
                         # same n, so collect:
-                        ca[coeffindex + 1][2][:cls.powlrange[l]] += c
+                        nxt = ca[coeffindex + 1]
+                        if nxt[2].dtype != np.result_type(nxt[2], c):
+                            # in-place += cannot cast complex into a real array: promote first
+                            nxt = (nxt[0], nxt[1], nxt[2].astype(np.result_type(nxt[2], c)))
+                            ca[coeffindex + 1] = nxt
+                        nxt[2][:cls.powlrange[l]] += c
                         dellist.append(coeffindex)
                     else:
                         ca[coeffindex] = (n, l, c.copy())
